@@ -27,6 +27,7 @@ import (
 
 	corev1 "k8s.io/api/core/v1"
 	kerrors "k8s.io/apimachinery/pkg/api/errors"
+	metav1 "k8s.io/apimachinery/pkg/apis/meta/v1"
 	"k8s.io/apimachinery/pkg/types"
 	"k8s.io/client-go/kubernetes"
 	"k8s.io/utils/ptr"
@@ -386,7 +387,9 @@ func (r *Reconciler) Reconcile(ctx context.Context, req reconcile.Request) (reco
 		// record its index. The current revision is never a candidate for
 		// garbage collection: after a rollback it may still carry the lowest
 		// number here, because it is only renumbered below.
-		if revisionNum < oldestRevision && rev.GetName() != p.GetCurrentRevision() {
+		// Nor is a revision that another owner controls, e.g. the revision of
+		// a deleted package of the same name that has not been collected yet.
+		if revisionNum < oldestRevision && rev.GetName() != p.GetCurrentRevision() && !controlledByAnother(rev, p) {
 			oldestRevision = revisionNum
 			oldestRevisionIndex = index
 		}
@@ -422,7 +425,8 @@ func (r *Reconciler) Reconcile(ctx context.Context, req reconcile.Request) (reco
 	// Check to see if there are revisions eligible for garbage collection.
 	if p.GetRevisionHistoryLimit() != nil &&
 		*p.GetRevisionHistoryLimit() != 0 &&
-		len(revisions) > (int(*p.GetRevisionHistoryLimit())+1) {
+		len(revisions) > (int(*p.GetRevisionHistoryLimit())+1) &&
+		oldestRevisionIndex >= 0 {
 		gcRev := revisions[oldestRevisionIndex]
 		// Find the oldest revision and delete it.
 		if err := r.client.Delete(ctx, gcRev); err != nil {
@@ -613,4 +617,11 @@ func enqueueFunctionsForImageConfig(kube client.Client, log logging.Logger) hand
 		}
 		return matches
 	})
+}
+
+// controlledByAnother returns true if the supplied revision has a controller
+// reference that does not name the supplied package.
+func controlledByAnother(rev v1.PackageRevision, p v1.Package) bool {
+	c := metav1.GetControllerOf(rev)
+	return c != nil && c.UID != p.GetUID()
 }
